@@ -284,7 +284,8 @@ pub fn run(seed: u64, count: usize, thorough: bool, out: &mut Out) {
         let pdb = sequential(&mut rng, first_atom, first_res, n);
         round_trip(out, &pdb, 2, &[2], "wrap");
     }
-    if thorough {
+    // numbered straight through two wrap-arounds of the atom serial numbers (and, thorough, of the residue numbers too)
+    if thorough || !cfg!(debug_assertions) {
         let pdb = sequential(&mut rng, 1, 1, 200_010);
         round_trip(out, &pdb, 2, &[2], "wrap-full");
     }
